@@ -227,6 +227,7 @@ class Fn:
     real_name: str | None = None     # name reported in evidence (e.g. "Lexer::scan_number")
     attrs: str = ""
     decreases: str | None = None     # fn-level decreases (recursion)
+    label: str | None = None         # obligation name when several extracted functions share a name (trait impls)
 
 
 @dataclass
@@ -238,6 +239,34 @@ class Const:
 @dataclass
 class Raw:
     text: str
+
+
+@dataclass
+class Enum:
+    """Copy `enum NAME { .. }` (variants only; attributes, comments and visibility dropped) from a source file."""
+    name: str
+    source: str | None = None
+    derive: str = "#[derive(PartialEq, Eq, Clone, Copy)]"
+    rewrites: list = field(default_factory=list)   # applied to the variant list (payload types the unit abstracts)
+    eq: bool = False   # payload-free enum: emit `PartialEq` with its structural-equality spec (what #[derive(PartialEq)] means)
+
+
+@dataclass
+class Block:
+    """Cut the `{ .. }` block that follows the first match of `anchor` inside fn `within` and wrap it as a function (rewrite R11b).
+    What is dropped is exactly what the rewrites say; the wrapper adds `prologue` before and `epilogue` after the block."""
+    name: str                        # name of the generated function
+    within: str                      # enclosing real function
+    anchor: str                      # regex; the block is the first `{` at/after the end of its match
+    sig: str
+    source: str | None = None
+    impl: str | None = None
+    prologue: str = ""
+    epilogue: str = ""
+    requires: list = field(default_factory=list)
+    ensures: list = field(default_factory=list)
+    rewrites: list = field(default_factory=list)
+    real_name: str | None = None
 
 
 @dataclass
@@ -344,12 +373,88 @@ def extract_fn(repo: Path, unit: VUnit, f: Fn) -> tuple[str, dict]:
     return text, info
 
 
+def extract_enum(repo: Path, unit: VUnit, e: Enum) -> str:
+    src = (repo / (e.source or unit.source)).read_text()
+    m = re.search(r"\benum\s+" + re.escape(e.name) + r"\s*(?:<[^>{]*>)?\s*\{", src)
+    if not m:
+        raise LostAnchor(f"enum {e.name} not found")
+    i = m.end() - 1
+    depth, j = 0, i
+    while j < len(src):
+        if src[j] == "{":
+            depth += 1
+        elif src[j] == "}":
+            depth -= 1
+            if depth == 0:
+                break
+        j += 1
+    body = strip_r1(src[i:j + 1])
+    for rw in e.rewrites:
+        body, n = re.subn(rw.pattern, rw.repl, body, count=rw.count, flags=rw.flags)
+        if n < rw.min_matches:
+            raise LostAnchor(f"enum {e.name}: rewrite {rw.rule} /{rw.pattern}/ matched {n} time(s), expected >= {rw.min_matches}")
+    text = f"{e.derive}\npub enum {e.name} {body}\n"
+    if e.eq:
+        variants = re.findall(r"\b([A-Z]\w*)\s*,", body.strip()[1:-1] + ",")
+        if not variants or re.search(r"[({]", body.strip()[1:-1]):
+            raise LostAnchor(f"enum {e.name}: eq=True needs a payload-free enum")
+        arms = " ".join(f"({e.name}::{v}, {e.name}::{v}) => true," for v in variants)
+        text += (f"impl vstd::std_specs::cmp::PartialEqSpecImpl for {e.name} {{\n"
+                 f"    open spec fn obeys_eq_spec() -> bool {{ true }}\n"
+                 f"    open spec fn eq_spec(&self, other: &{e.name}) -> bool {{ *self == *other }}\n}}\n"
+                 f"impl PartialEq for {e.name} {{\n    fn eq(&self, other: &{e.name}) -> (r: bool) {{ match (self, other) {{ {arms} _ => false }} }}\n}}\n")
+    return text
+
+
+def extract_block(repo: Path, unit: VUnit, b: Block) -> tuple[str, dict]:
+    path = repo / (b.source or unit.source)
+    src = path.read_text()
+    start, open_i, end = find_fn(src, b.within, b.impl)
+    fn_text = src[open_i:end]
+    m = re.search(b.anchor, fn_text, re.S)
+    if not m:
+        raise LostAnchor(f"block {b.name}: anchor /{b.anchor}/ not found in fn {b.within}")
+    i = fn_text.find("{", m.end() - 1)
+    toks = [t for t in tokenize(fn_text[i:]) if t[0] not in ("ws", "comment")]
+    depth, close = 0, None
+    for t in toks:
+        if t[0] == "punct" and t[1] == "{":
+            depth += 1
+        elif t[0] == "punct" and t[1] == "}":
+            depth -= 1
+            if depth == 0:
+                close = i + t[3]
+                break
+    if close is None:
+        raise LostAnchor(f"block {b.name}: unbalanced braces")
+    body = strip_r1(fn_text[i + 1:close - 1])
+    info = {"file": str(b.source or unit.source), "orig_lines": (src.count("\n", 0, open_i + i) + 1, src.count("\n", 0, open_i + close) + 1), "rewrites": []}
+    for rw in list(b.rewrites):
+        new, n = re.subn(rw.pattern, rw.repl, body, count=rw.count, flags=rw.flags)
+        if n < rw.min_matches:
+            raise LostAnchor(f"block {b.name}: rewrite {rw.rule} /{rw.pattern}/ matched {n} time(s), expected >= {rw.min_matches}")
+        if n:
+            info["rewrites"].append(f"{rw.rule}: /{rw.pattern}/ -> '{rw.repl}' x{n}")
+        body = new
+    clauses = ""
+    if b.requires:
+        clauses += "\n    requires\n        " + ",\n        ".join(b.requires) + ","
+    if b.ensures:
+        clauses += "\n    ensures\n        " + ",\n        ".join(b.ensures) + ","
+    text = f"{b.sig}{clauses}\n{{\n{b.prologue}\n{body}\n{b.epilogue}\n}}\n"
+    return text, info
+
+
 def extract_const(repo: Path, unit: VUnit, c: Const) -> str:
     src = (repo / (c.source or unit.source)).read_text()
     m = re.search(r"^\s*(?:pub(?:\([a-z]+\))?\s+)?const\s+" + re.escape(c.name) + r"\s*:[^;]*;", src, re.M)
     if not m:
         raise LostAnchor(f"const {c.name} not found")
     return re.sub(r"^\s*pub(\([a-z]+\))?\s+", "", m.group(0).strip()) + "\n"
+
+
+def _key(it) -> str:
+    return getattr(it, "label", None) or it.name
 
 
 def generate(repo: Path, unit: VUnit) -> tuple[str, list, dict]:
@@ -361,18 +466,24 @@ def generate(repo: Path, unit: VUnit) -> tuple[str, list, dict]:
             parts.append(("raw", it.text.strip("\n") + "\n"))
         elif isinstance(it, Const):
             parts.append((f"const {it.name}", extract_const(repo, unit, it)))
+        elif isinstance(it, Enum):
+            parts.append((f"enum {it.name}", extract_enum(repo, unit, it)))
+        elif isinstance(it, Block):
+            text, binfo = extract_block(repo, unit, it)
+            info["functions"][it.name] = binfo
+            parts.append((f"fn {it.name}", text))
         else:
             text, finfo = extract_fn(repo, unit, it)
-            info["functions"][it.name] = finfo
-            parts.append((f"fn {it.name}", text))
+            info["functions"][_key(it)] = finfo
+            parts.append((f"fn {_key(it)}", text))
             if it.vacuity is not None and it.requires and it.vacuity != "-":
                 req = it.requires
                 for a, b in it.vacuity_subst:
                     req = [r.replace(a, b) for r in req]
-                probe = (f"proof fn vacuity_{it.name}({it.vacuity})\n    requires\n        " + ",\n        ".join(req)
+                probe = (f"proof fn vacuity_{_key(it)}({it.vacuity})\n    requires\n        " + ",\n        ".join(req)
                          + ",\n    ensures false,\n{\n}\n")
-                parts.append((f"fn vacuity_{it.name}", probe))
-                info["vacuity"].append(f"vacuity_{it.name}")
+                parts.append((f"fn vacuity_{_key(it)}", probe))
+                info["vacuity"].append(f"vacuity_{_key(it)}")
     parts.append(("epilogue", unit.epilogue.strip("\n") + "\n"))
     out, line_map, line = [], [], 1
     out.append("// GENERATED by /verif/vlib/vextract.py from /repo/src on this run -- do not edit.\n")
@@ -472,7 +583,7 @@ def run_vunit(u: VUnit, scratch, tier: str):
             by_label.setdefault(lab, []).append((kind, clause, "\n".join(e["raw"][:25])))
         else:
             hard_errors.append((lab, kind, "\n".join(e["raw"][:25])))
-    fn_items = [it for it in u.items if isinstance(it, Fn)]
+    fn_items = [it for it in u.items if isinstance(it, (Fn, Block))]
     tool_problem = None
     if js.get("timeout"):
         tool_problem = f"verus timed out after {u.timeout}s"
@@ -482,13 +593,14 @@ def run_vunit(u: VUnit, scratch, tier: str):
         tool_problem = "no verification result from verus:\n" + stderr[-1500:]
     nfun = max(1, len(fn_items) + len(u.lemma_obligations))
     for it in fn_items:
-        lab = f"fn {it.name}"
-        ob = Obligation(name=f"V:{u.name}:{it.name}", engine="verus 0.2026.09.13 / z3", function=it.real_name or f"{(it.source or u.source)}::{it.name}",
+        lab = f"fn {_key(it)}"
+        loops = getattr(it, "loops", {})
+        ob = Obligation(name=f"V:{u.name}:{_key(it)}", engine="verus 0.2026.09.13 / z3", function=it.real_name or f"{(it.source or u.source)}::{it.name}",
                         kind="proof", status="undecided", unit=u.name, time_s=round(smt_ms / 1000.0 / nfun, 3),
                         bound="unbounded (all inputs satisfying the requires clause, all iterations)",
                         clauses=[f"requires {r}" for r in it.requires] + [f"ensures {e}" for e in it.ensures]
-                        + [f"loop {k}: invariant {'; '.join(v.get('invariant', []))}; decreases {v.get('decreases')}" for k, v in it.loops.items()])
-        ob.checks = len(it.requires) + len(it.ensures) + sum(len(v.get("invariant", [])) + 1 for v in it.loops.values()) + 1
+                        + [f"loop {k}: invariant {'; '.join(v.get('invariant', []))}; decreases {v.get('decreases')}" for k, v in loops.items()])
+        ob.checks = len(it.requires) + len(it.ensures) + sum(len(v.get("invariant", [])) + 1 for v in loops.values()) + 1
         if tool_problem:
             # a recursion without decreases is a *failed obligation* (bounded-stack contract), reported below; everything else undecided
             ob.detail = tool_problem
@@ -512,7 +624,7 @@ def run_vunit(u: VUnit, scratch, tier: str):
             ob.status = "discharged"
         obs.append(ob)
     # errors in raw/preamble/epilogue parts that are not attributed: make them visible
-    stray = [lab for lab in by_label if not lab.startswith("fn ") or (lab[3:] not in [i.name for i in fn_items] and not lab[3:].startswith("vacuity_"))]
+    stray = [lab for lab in by_label if not lab.startswith("fn ") or (lab[3:] not in [_key(i) for i in fn_items] and not lab[3:].startswith("vacuity_"))]
     if stray and not tool_problem:
         unattributed = [x for lab in stray for x in by_label[lab] if not any(n in x[2] for n in u.lemma_obligations)]
         if unattributed:
